@@ -1,10 +1,11 @@
 (** Model of core/varint_encoding.h, core/varint_decoding.h and the zig-zag maps of
     core/bit_utils.h, for an integer type of [w] bits (w = 8, 16, 32, 64). *)
-From Draco Require Import Base.Codec.
+From Draco Require Import Base.Codec Gen.Constants.
 Local Open Scope Z_scope.
 
-(** constexpr max_depth = sizeof(T) + 1 + (sizeof(T) >> 3) *)
-Definition varint_max_depth (w : Z) : nat := Z.to_nat (w / 8 + 1 + Z.shiftr (w / 8) 3).
+(** constexpr max_depth = sizeof(T) + 1 + (sizeof(T) >> 3): the expression is regenerated from
+    core/varint_decoding.h by tools/cxx2v.py (Gen/Constants.v). *)
+Definition varint_max_depth (w : Z) : nat := Z.to_nat (varint_max_depth_of_sizeof (w / 8)).
 
 (** EncodeVarint<unsigned T>: recursion on val >> 7.  The C++ recursion has no depth
     limit; [fuel] only makes the Gallina definition structural, and [None] (fuel
